@@ -179,12 +179,17 @@ def run_solver(name, path, timeout):
         return 'timeout', time.time() - t0, ''
 
 
-def run_inprocess(smt2, timeout):
+def run_inprocess(smt2, timeout, ematch_only=False):
     """z3 5.1 through z3py in this (worker) process, fresh context per query"""
     t0 = time.time()
     ctx = z3.Context()
-    s = z3.Solver(ctx=ctx)
+    s = z3.SolverFor('ALL', ctx=ctx) if False else z3.Solver(ctx=ctx)
     s.set('timeout', int(timeout * 1000))
+    if ematch_only:
+        # E-matching only (no model-based instantiation, no auto configuration): decides the quantified VCs
+        # of this engine in milliseconds where the default configuration wanders; cannot answer sat
+        s.set('auto_config', False)
+        s.set('mbqi', False)
     try:
         s.from_string(smt2)
         r = s.check()
@@ -217,21 +222,44 @@ def solve_text(smt2, timeout, workdir, tag, order=('z3-5.1', 'z3-4.8', 'cvc5'), 
     total = 0.0
     ft = first_timeout or timeout
     model = None
-    for k, s in enumerate(order):
-        if s == 'z3-5.1':
-            res, dt, model = run_inprocess(smt2, ft if k == 0 else timeout)
-        else:
-            res, dt, out = run_solver(s, path, ft if k == 0 else timeout)
-        details[s] = (res, round(dt, 3))
+    rest = list(order)
+    if rest and rest[0] == 'z3-5.1':
+        res, dt, model = run_inprocess(smt2, min(ft, 4), ematch_only=True)
+        details['z3-5.1/ematch'] = (res, round(dt, 3))
         total += dt
-        if res == 'unsat':
-            verdict = 'unsat'
-            winner = s
-            break
-        if res == 'sat':
-            verdict = 'sat'
-            winner = s
-            break
+        if res != 'unsat':
+            res, dt, model = run_inprocess(smt2, ft)
+            details['z3-5.1'] = (res, round(dt, 3))
+            total += dt
+        if res in ('unsat', 'sat'):
+            verdict, winner = res, 'z3-5.1'
+        rest = rest[1:]
+    if verdict == 'unknown' and rest:
+        # the other back ends run concurrently; the first definite answer wins
+        import threading
+        box = {}
+        procs = {}
+
+        def work(name):
+            box[name] = run_solver(name, path, timeout)
+        ths = [threading.Thread(target=work, args=(n,)) for n in rest]
+        t1 = time.time()
+        for t in ths:
+            t.start()
+        for t in ths:
+            t.join()
+        total += time.time() - t1
+        for n in rest:
+            r_, dt_, out_ = box.get(n, ('unknown', 0, ''))
+            details[n] = (r_, round(dt_, 3))
+        for n in rest:
+            if details[n][0] == 'sat':
+                verdict, winner = 'sat', n
+        if verdict == 'unknown':
+            for n in rest:
+                if details[n][0] == 'unsat':
+                    verdict, winner = 'unsat', n
+                    break
     if verdict == 'unsat':
         try:
             os.unlink(path)
@@ -243,6 +271,7 @@ def solve_text(smt2, timeout, workdir, tag, order=('z3-5.1', 'z3-4.8', 'cvc5'), 
 def gen_lemmas(world, contracts, externals, pkg):
     """lemmas of one package's contract files: each is proved from the axioms and the lemmas before it"""
     V = Verifier(world, contracts, externals, 'lemma:' + pkg)
+    V.pure_arith = True      # lemmas are about real arithmetic itself
     V.top_entry_heap = Heap(V)
     H0 = V.top_entry_heap
     out = []
